@@ -2,7 +2,7 @@ CONSTANTS MaxRows = 2
           MaxRowsY = 2
           MaxSteps = 1
           NKeys = 6
-          Stride = 64
+          Stride = 128
           Gen = TRUE
           Emit = "each"
           Variant = "plain"
